@@ -117,7 +117,6 @@ REFERRER_OLD = """        if url_record.parent_url.startswith('https://') and \\
                 url_record.url_info.scheme == 'http':
             return
 
-        request.fields['Referer'] = url_record.parent_url
 """
 
 ENTRIES = [
@@ -230,8 +229,8 @@ ENTRIES = [
       "elif http.client.UNAUTHORIZED == response.status_code and self._next_request.password:"),
     N('referrer-nested-if', PWEB, REFERRER_OLD,
       "        from_https = url_record.parent_url.startswith('https://')\n\n"
-      "        if not (from_https and url_record.url_info.scheme == 'http'):\n"
-      "            request.fields['Referer'] = url_record.parent_url\n"),
+      "        if from_https and url_record.url_info.scheme == 'http':\n"
+      "            return\n\n"),
     N('field-line-concat', NV, "                pairs.append('{0}: {1}'.format(name, value))", "                pairs.append(name + ': ' + value)"),
     N('redirect-handler-bare-raise-type', WEB, "        except ValueError as error:\n            raise ProtocolError('Invalid redirect location.') from error",
       "        except (ValueError, TypeError) as error:\n            _logger.debug('Bad redirect.')\n            raise ProtocolError('Invalid redirect location.') from error"),
@@ -239,4 +238,11 @@ ENTRIES = [
       "        can_prepare = True\n        if hasattr(request, 'prepare_for_send'):\n            request.prepare_for_send(full_url)\n\n        if self._ignore_length:"),
     N('post-length-local', PWEB, "        request.fields['Content-Length'] = str(len(data))\n",
       "        length = len(data)\n        request.fields['Content-Length'] = '{}'.format(length)\n"),
+]
+
+PW = 'wpull/processor/web.py'
+ENTRIES += [
+    B('regress-referer-keeps-userinfo', PW, "        if url_record.parent_url_info.userinfo:\n", "        if False:\n", 'C16-D5'),
+    B('referer-rebuilt-from-authority', PW, "                url_record.parent_url_info.hostname_with_port,\n", "                url_record.parent_url_info.authority,\n", 'C16-D5'),
+    {'id': 'C16/benign-referer-userinfo-test-on-username', 'prop': 'C16', 'kind': 'benign', 'edits': [(PW, "        if url_record.parent_url_info.userinfo:\n", "        if url_record.parent_url_info.username or url_record.parent_url_info.password:\n")]},
 ]
